@@ -24,7 +24,18 @@ peer stays silent for it, the read comes back short, the client closes the conne
 that caller must get its own error object, every other caller its own reply (a reconnect that escapes the client lock
 shows up as a reply that was delivered but not received).  A case may contain BROADCASTS (requests to unit 0 on a
 client with broadcast_enable): written, nothing read, no unit answers; the broadcaster must get the broadcast marker,
-and its frame (and its flush of the input) must not land inside another caller's send..receive interval."""
+and its frame (and its flush of the input) must not land inside another caller's send..receive interval.
+A case may run on a RETRYING client (`retry_on_empty=True`, 1..2 retries, back-off): a request's first `lost`
+transmissions go unanswered; after each of them the retry loop of the manager backs off — `time.sleep` inside
+pymodbus.transaction is a yield point on the virtual clock, so every other thread may try to enter `execute` exactly
+then —, reconnects and transmits again.  That caller must get its OWN reply from the transmission that got one (its
+own error object if all were lost), everybody else its own reply, and nobody may be left blocked.  All locks the
+library creates while the client is constructed are instrumented AT BIRTH (`born_instrumented`), so that an object
+built on such a lock (a `Condition`, say) works on the wrapper: a back-off that waits on a condition of the client
+lock gives that lock up visibly, and the resulting deadlock (client lock <-> manager lock) is seen by the scheduler.
+A thread that stops reaching yield points for WATCHDOG real seconds while the others are parked (it blocks on
+something real the wrappers do not see) is reported as a deadlock as well; worker threads are daemons and are joined
+with a bound, so a stuck thread never hangs the check."""
 import sys
 import threading
 
@@ -33,6 +44,7 @@ import select as _real_select
 import time as _real_time
 
 import pymodbus.client.sync as _sync
+import pymodbus.transaction as _tx
 from pymodbus.client.sync import ModbusTcpClient
 from pymodbus.register_read_message import ReadHoldingRegistersRequest
 from pymodbus.pdu import ExceptionResponse
@@ -48,21 +60,32 @@ ASSUMPTIONS = ['pre-emption happens only at the yield points (every transport op
                'the registers addr, addr+1, ... (or exception 03 for a quantity outside 1..125); a read on an empty '
                'connection times out (virtual clock)',
                'requests are read-holding-registers requests with unit < 256, address and quantity < 65536',
-               'a lost reply = the peer never answers that request (a reply that arrives late is not modelled here)',
+               'a lost reply = the peer never answers that transmission of the request (a reply that arrives late is not '
+               'modelled here); `lost` = n: the first n transmissions of the request go unanswered',
+               'the back-off of the retry loop is `time.sleep(delay)` in pymodbus.transaction (virtual time: a yield point); '
+               'a back-off implemented on a lock/condition the library creates in a constructor is seen through the '
+               'instrumented lock (its real wait lasts backoff=1 ms); any other way of waiting is a real wait of that length',
                'lock objects are observed through wrappers assigned from outside to manager._transaction_lock and '
                'client._connect_lock (whatever objects the code created there)']
 TRUSTED = ['harness/c15.py cooperative scheduler and instrumented lock wrapper (observes acquire/release from outside)',
            'harness/c15.py stand-ins for socket/select/time inside pymodbus.client.sync (in-memory connections, virtual clock)',
-           'harness/gen_tables.py lock_scope_info (ast reading of transaction.py: which lock, around what)']
+           'harness/gen_tables.py lock_scope_info (ast reading of transaction.py: which lock, around what)',
+           'harness/c15.py born_instrumented (wraps what the modules call RLock while the client is constructed) and '
+           'observe_backoff (one real retried transaction: which locks are released between the two transmissions)']
 RULE = ('all schedules (stateless DFS over the runnable threads at every yield point) of 2 threads x 1..3, 3 threads x 1..3 and '
         '4 threads x 1..2 transactions on a connected and on a not yet connected client, requests with different unit ids / '
-        'quantities / latencies in most cases, plus random schedules of 2..4 threads x 1..3 transactions (quick); more cases, '
+        'quantities / latencies in most cases; with refused connection attempts, lost replies, broadcasts, and retrying '
+        'clients (retry_on_empty, 1..2 retries, back-off = yield point, first transmissions lost; 2..3 threads x 1..2); '
+        'plus random schedules of 2..4 threads x 1..3 transactions over all of these (quick); more cases, '
         '4 threads x 2..3 and 2..4 threads x 1..3 transactions by DFS '
         'with sleep sets (polls and socket-reading connect checks are the only independent steps) up to 200k schedules '
         '(thorough); non-trivial = a schedule in which some thread was parked on the lock or pre-empted inside a '
         'transaction; distinct by (requests, client state, schedule)')
 
-YIELD_OPS = ('connect', 'open', 'acquire', 'flush', 'send1', 'send2', 'wait', 'recv', 'release')
+YIELD_OPS = ('connect', 'open', 'acquire', 'flush', 'backoff', 'send1', 'send2', 'wait', 'recv', 'release')
+
+
+WATCHDOG = 3.0          # real seconds a thread may take between two yield points
 
 
 class Abort(BaseException):
@@ -132,8 +155,8 @@ class Scheduler:
 
     def resume(self, i):
         self.go[i].set()
-        if not self.back.wait(10):
-            raise Hang('thread %d did not come back to the scheduler' % i)
+        if not self.back.wait(WATCHDOG):
+            raise Hang('thread %d did not reach a yield point within %g s (blocked on something real)' % (i, WATCHDOG))
 
 
 # --------------------------------------------------------------------------- instrumented lock objects
@@ -156,14 +179,14 @@ class ILock:
             # a bounded wait: the scheduler decides when the wait ends; if the lock is still held then, it timed out
             self.sched.yield_('acquire', None)
             if not self.can_acquire(i):
-                self.log.append(('timeout', i, id(self.inner)))
+                self.log.append(('timeout', i, id(self.inner), len(self.sched.events)))
                 return False
         else:
             self.sched.yield_('acquire', self)
         if not self.inner.acquire(False):
             raise Hang('the scheduler granted a lock that is not free')
         self.owner, self.depth = i, self.depth + 1
-        self.log.append(('acq', i, id(self.inner)))
+        self.log.append(('acq', i, id(self.inner), len(self.sched.events)))
         return True
 
     def release(self):
@@ -171,8 +194,33 @@ class ILock:
         self.depth -= 1
         if self.depth == 0:
             self.owner = None
-        self.log.append(('rel', self.sched.me(), id(self.inner)))
+        self.log.append(('rel', self.sched.me(), id(self.inner), len(self.sched.events)))
         self.inner.release()
+
+    # what threading.Condition uses when it is built on this lock: give the lock up completely for the wait, take it
+    # again (at the depth it had) afterwards — both are yield points like any release / acquire
+    def _release_save(self):
+        self.sched.yield_('release', self)
+        state = (self.owner, self.depth, self.inner._release_save() if hasattr(self.inner, '_release_save')
+                 else self.inner.release())
+        self.owner, self.depth = None, 0
+        self.log.append(('rel', self.sched.me(), id(self.inner), len(self.sched.events)))
+        return state
+
+    def _acquire_restore(self, state):
+        i = self.sched.me()
+        owner, depth, inner_state = state
+        self.sched.yield_('acquire', self)
+        if hasattr(self.inner, '_acquire_restore'):
+            self.inner._acquire_restore(inner_state)
+        else:
+            self.inner.acquire()
+        self.owner, self.depth = (i if i is not None else owner), depth
+        self.log.append(('acq', i, id(self.inner), len(self.sched.events)))
+
+    def _is_owned(self):
+        i = self.sched.me()
+        return self.owner is not None and (i is None or self.owner == i)
 
     def __enter__(self):
         self.acquire()
@@ -244,6 +292,8 @@ class IMap:
 
 
 def instrument(sched, obj, log):
+    if isinstance(obj, (ILock, ICtx, IMap)):
+        return obj                      # instrumented at birth (see `born_instrumented`)
     if hasattr(obj, 'acquire') and hasattr(obj, 'release'):
         return ILock(sched, obj, log)
     if hasattr(obj, '__getitem__'):
@@ -324,7 +374,8 @@ class Env:
         self.peer = Peer()
         self.lats = lats            # thread index -> latency of the request it is executing
         self.fresh = {}
-        self.lost = {}              # thread index -> the reply to the request it is executing is lost
+        self.lost = {}              # thread index -> how many transmissions of its current request get no answer
+        self.sent = {}              # thread index -> transmissions of its current request so far
         self.clock = 1000.0
         self.fail = fail            # which create_connection calls are refused: 'all' or a collection of indices
         self.attempts = 0
@@ -347,9 +398,11 @@ class FakeSocket:
         i = env.sched.me()
         data = bytes(data)
         env.sched.yield_('send1')
-        env.peer.write(self.conn, i, True, data[:7], env.lost.get(i, False))
+        lost = env.sent.get(i, 0) < env.lost.get(i, 0)         # the peer does not answer this transmission
+        env.sent[i] = env.sent.get(i, 0) + 1
+        env.peer.write(self.conn, i, True, data[:7], lost)
         env.sched.yield_('send2')
-        env.peer.write(self.conn, i, False, data[7:], env.lost.get(i, False))
+        env.peer.write(self.conn, i, False, data[7:], lost)
         env.fresh[i] = True
         return len(data)
 
@@ -430,11 +483,67 @@ class TimeShim:
         Env.current.clock += t
 
 
+class TxTimeShim:
+    """stands for the `time` module inside pymodbus.transaction: the back-off `time.sleep(delay)` of the retry loop is a
+    yield point of the cooperative scheduler (virtual time), not a real sleep"""
+
+    def __getattr__(self, k):
+        return getattr(_real_time, k)
+
+    def time(self):
+        return Env.current.clock if Env.current else _real_time.time()
+
+    def sleep(self, t):
+        env = Env.current
+        if env is None or env.sched.me() is None:
+            return
+        env.sched.yield_('backoff')
+        env.clock += t
+
+
+_ORIGINALS = {}
+
+
 def install_shims():
     if not isinstance(_sync.socket, SocketShim):
+        _ORIGINALS.update(sock=_sync.socket, sel=_sync.select, tim=_sync.time, txtim=getattr(_tx, 'time', None))
         _sync.socket = SocketShim()
         _sync.select = SelectShim()
         _sync.time = TimeShim()
+    if not isinstance(getattr(_tx, 'time', None), TxTimeShim):
+        _tx.time = TxTimeShim()
+
+
+def uninstall_shims():
+    """put the real modules back (used when a run is made on behalf of somebody else, see gen_tables)"""
+    if isinstance(_sync.socket, SocketShim) and _ORIGINALS:
+        _sync.socket, _sync.select, _sync.time = _ORIGINALS['sock'], _ORIGINALS['sel'], _ORIGINALS['tim']
+        if _ORIGINALS.get('txtim') is not None:
+            _tx.time = _ORIGINALS['txtim']
+        _ORIGINALS.clear()
+    Env.current = None
+
+
+class born_instrumented:
+    """while a client is being constructed, every lock the library creates through the name `RLock` of its modules is
+    instrumented at birth — so that an object built ON such a lock in `__init__` (a Condition, say) works on the
+    instrumented lock, not behind its back.  Whatever the module calls `RLock` is still what creates the lock."""
+
+    def __init__(self, sched, log):
+        self.sched, self.log, self.saved = sched, log, []
+
+    def __enter__(self):
+        for mod in (_sync, _tx):
+            orig = getattr(mod, 'RLock', None)
+            if orig is not None:
+                self.saved.append((mod, orig))
+                setattr(mod, 'RLock', (lambda o: (lambda *a, **k: instrument(self.sched, o(*a, **k), self.log)))(orig))
+        return self
+
+    def __exit__(self, *a):
+        for mod, orig in self.saved:
+            setattr(mod, 'RLock', orig)
+        return False
 
 
 class WireClient(ModbusTcpClient):
@@ -471,14 +580,15 @@ class Run:
 def world(w):
     """the scripted world of a case: {'connected': bool, 'fail': [indices of refused connection attempts] | 'all'}"""
     if isinstance(w, dict):
-        return {'connected': bool(w.get('connected', True)), 'fail': w.get('fail', [])}
-    return {'connected': bool(w), 'fail': []}
+        return {'connected': bool(w.get('connected', True)), 'fail': w.get('fail', []), 'retry': w.get('retry')}
+    return {'connected': bool(w), 'fail': [], 'retry': None}
 
 
 def world_tag(w):
     w = world(w)
     return ('connected' if w['connected'] else 'cold') + ('' if not w['fail'] else ':fail=%s' % (
-        'all' if w['fail'] == 'all' else ','.join(map(str, w['fail']))))
+        'all' if w['fail'] == 'all' else ','.join(map(str, w['fail'])))) + (
+        '' if not w.get('retry') else ':retries=%d' % w['retry']['retries'])
 
 
 def run_schedule(threads, chooser, connected=True):
@@ -493,11 +603,15 @@ def run_schedule(threads, chooser, connected=True):
     env = Env.current = Env(sched, lats, w['fail'])
     # a case with broadcasts runs on a client with broadcast_enable (there, unit 0 <=> broadcast)
     benable = any(r.get('bcast') for t in threads for r in t)
-    client = WireClient('192.0.2.1', 502, timeout=1, broadcast_enable=benable)
+    kw = {}
+    if w.get('retry'):      # a retrying client: retry_on_empty, `retries` further attempts, a (tiny, real) back-off
+        kw = dict(retries=w['retry']['retries'], retry_on_empty=True, backoff=0.001)
+    locklog = []
+    with born_instrumented(sched, locklog):
+        client = WireClient('192.0.2.1', 502, timeout=1, broadcast_enable=benable, **kw)
     if w['connected']:
         client.connect()
     env.scripted = True
-    locklog = []
     mgr = client.transaction
     if hasattr(mgr, '_transaction_lock'):
         mgr._transaction_lock = instrument(sched, mgr._transaction_lock, locklog)
@@ -511,7 +625,8 @@ def run_schedule(threads, chooser, connected=True):
         try:
             for k, r in enumerate(threads[i]):
                 lats[i] = r['lat']
-                env.lost[i] = bool(r.get('lost')) or bool(r.get('bcast'))      # no unit answers a broadcast
+                env.lost[i] = 10 ** 6 if r.get('bcast') else int(r.get('lost') or 0)   # no unit answers a broadcast
+                env.sent[i] = 0
                 req = ReadHoldingRegistersRequest(r['addr'], r['count'], unit=r['unit'])
                 marks.append((i, k, 'begin', len(sched.events)))
                 try:
@@ -566,11 +681,35 @@ def run_schedule(threads, chooser, connected=True):
     out.results = results
     out.marks = marks
     out.locklog = locklog
+    out.lock_ids = {'client': id(getattr(getattr(client, '_connect_lock', None), 'inner', None)),
+                    'manager': id(getattr(getattr(mgr, '_transaction_lock', None), 'inner', None))}
     out.failed = list(env.failed)
     out.attempts = env.attempts
     out.left = dict(stream=[list(x) for x in env.peer.stream], pending=[list(x) for x in env.peer.pending],
                     buf=list(client.framer._buffer), tid=mgr.tid,
                     sock=client.socket.conn if isinstance(client.socket, FakeSocket) else None)
+    return out
+
+
+def observe_backoff():
+    """ONE real transaction whose first transmission gets no answer, on a retrying client, single caller: are the
+    client lock / the manager lock given up between the two transmissions (i.e. during the back-off)?
+    Returns dict(observed=bool, client=number of releases of the client lock in that window, manager=...)."""
+    th = [[{'unit': 1, 'addr': 100, 'count': 2, 'lat': 0, 'lost': 1}]]
+    run = run_schedule(th, lambda step, en, ops: en[0], {'connected': True, 'retry': {'retries': 1}})
+    sends = [p for p, e in enumerate(run.events) if e[1] == 'send1']
+    done = [p for p, e in enumerate(run.events) if e[1] == 'send2']
+    out = dict(observed=False, client=0, manager=0)
+    if run.hang or run.deadlock or len(sends) < 2 or not done:
+        return out
+    lo, hi = done[0], sends[1]
+    out['observed'] = run.results == [[[1, {'tid': 1, 'unit': 1, 'msg': {'regs': [100, 101]}}]]]
+    for kind, _t, lid, pos in run.locklog:
+        if kind == 'rel' and lo < pos <= hi:
+            if lid == run.lock_ids['client']:
+                out['client'] += 1
+            elif lid == run.lock_ids['manager']:
+                out['manager'] += 1
     return out
 
 
@@ -620,11 +759,17 @@ def contiguous(wire):
     return True
 
 
+def attempts_of(case):
+    r = (case or {}).get('retry')
+    return r['retries'] + 1 if r else 1
+
+
 def check_property(rep, case, run, expected, threads):
     """direct predicates on what the REAL code did; returns True if the property held on this run"""
     ok = True
     if run.hang:
-        rep.violation('a thread blocked outside the scheduler (real blocking on something)', case, hang=run.hang)
+        rep.violation('deadlock: a thread stopped reaching yield points (it blocks on something real) while the others '
+                      'are parked', case, hang=run.hang, parked=run.parked, events=run.events[-14:])
         return False
     if run.deadlock:
         rep.violation('deadlock: no thread can move while some have not finished', case, parked=run.parked,
@@ -651,8 +796,9 @@ def check_property(rep, case, run, expected, threads):
     if contiguous(run.wire) and not run.deadlock:
         frames = [run.wire[i][3] + run.wire[i + 1][3] for i in range(0, len(run.wire) - 1, 2)]
         want = sum(len(t) for t in threads) - len(refused)
-        if len(frames) != want or any(len(f) != 12 for f in frames):
-            rep.violation('the frames on the transport are not one whole frame per request', case,
+        most = sum(len(t) for t in threads) * attempts_of(case)      # a retrying client transmits a request again
+        if not (want <= len(frames) <= most) or any(len(f) != 12 for f in frames):
+            rep.violation('the frames on the transport are not whole frames, one per transmission of a request', case,
                           frames=len(frames), requests=want)
             ok = False
     for i, (rs, es, reqs) in enumerate(zip(run.results, expected, threads)):
@@ -675,7 +821,7 @@ def check_property(rep, case, run, expected, threads):
                                   got=r[1])
                     ok = False
                 continue
-            if q.get('lost'):
+            if int(q.get('lost') or 0) >= attempts_of(case):       # none of its transmissions was answered
                 if r[1] != {'err': 'modbusio'}:
                     rep.violation('a caller whose reply was lost did not get its error object', case,
                                   thread=i, k=k, request=q, got=r[1])
@@ -690,14 +836,30 @@ def check_property(rep, case, run, expected, threads):
 
 
 # --------------------------------------------------------------------------- model side
+_BACKOFF = {}
+
+
+def backoff_seen():
+    """observe_backoff(), once per process"""
+    if 'obs' not in _BACKOFF:
+        try:
+            _BACKOFF['obs'] = observe_backoff()
+        except Exception as e:  # noqa
+            _BACKOFF['obs'] = dict(observed=False, client=0, manager=0, error='%s: %s' % (type(e).__name__, e))
+    return _BACKOFF['obs']
+
+
 def model_scope():
-    """the model discipline that corresponds to what the two lock sites look like in the source (mutants: the nearest)"""
+    """the model discipline that corresponds to what the two lock sites look like in the source and to what the locks
+    were SEEN to do during a back-off (mutants: the nearest)"""
     inner = gen_tables.lock_scope_info()['scope']
     outer = gen_tables.client_lock_info()['scope']
     per = inner.startswith('perKey')
     if outer == 'whole':
         if per and 'unit' in inner:
             return 'outerPerUnit'
+        if inner == 'whole' and backoff_seen().get('client', 0) > 0:
+            return 'releaseClientLockInBackoff'      # the back-off gives the client lock up (keeps the manager lock)
         return 'whole'
     if outer == 'connectOnly' and inner == 'whole':
         return 'connectLocked'
@@ -723,6 +885,8 @@ def model_op(scope, threads, taken, connected):
         op['fail_all'] = True
     elif w['fail']:
         op['fail'] = list(w['fail'])
+    if w.get('retry'):
+        op['retry'] = {'retries': w['retry']['retries'], 'retry_on_empty': True}
     return op
 
 
@@ -828,12 +992,14 @@ def gen_req(rng, unit=None):
             'lat': rng.choice([0, 0, 0, 1, 1, 2])}
 
 
-def with_losses(rng, th, n=1):
-    """mark `n` of the requests as unanswered (the peer stays silent: the reply is lost)"""
+def with_losses(rng, th, n=1, retries=None):
+    """mark `n` of the requests as unanswered (the peer stays silent: the reply is lost).  On a retrying client
+    (`retries` further transmissions): the first 1..retries transmissions are lost (a later one is answered), or all
+    retries+1 are"""
     th = [[dict(r) for r in t] for t in th]
     slots = [(i, k) for i, t in enumerate(th) for k in range(len(t))]
     for (i, k) in rng.sample(slots, min(n, len(slots))):
-        th[i][k]['lost'] = 1
+        th[i][k]['lost'] = 1 if retries is None else rng.choice([1, 1, 1, retries, retries, retries + 1])
     return th
 
 
@@ -881,7 +1047,8 @@ def process_batch(ctx, rep, scope, batch):
     ans = ctx.driver.query([model_op(scope, th, run.taken, conn) for th, conn, run, _ in batch])
     for (th, conn, run, how), a in zip(batch, ans):
         w = world(conn)
-        case = {'kind': 'schedule', 'connected': w['connected'], 'fail': w['fail'], 'threads': th, 'sched': run.taken}
+        case = {'kind': 'schedule', 'connected': w['connected'], 'fail': w['fail'], 'retry': w.get('retry'),
+                'threads': th, 'sched': run.taken}
         parked = any(op == 'acquire' and t not in en for en, ops in run.points for t, op in ops.items())
         inside = False
         last = None
@@ -899,6 +1066,14 @@ def process_batch(ctx, rep, scope, batch):
         spec = 1 if (a['spec_exclusive'] and a['spec_contiguous'] and a['spec_served'] and not a['deadlock']) else 0
         rep.compare(case, verdict, spec, 'property verdict on the real run vs Spec verdict on the model run')
         rep.hist['unit-mix:' + ('different' if len({r['unit'] for t in th for r in t}) > 1 else 'same')] += 1
+        if w.get('retry'):
+            nb = sum(1 for _t, op in run.events if op == 'backoff')
+            rep.hist['retry:runs-with-backoff' if nb else 'retry:runs-without-backoff'] += 1
+            if any(ops.get(c) == 'backoff' and any(op == 'acquire' and t not in en for t, op in ops.items())
+                   for c, (en, ops) in zip(run.taken, run.points)):
+                rep.hist['retry:backoff-while-callers-parked-at-the-entrance'] += 1
+            if any(int(r.get('lost') or 0) >= attempts_of(w) for t in th for r in t if not r.get('bcast')):
+                rep.hist['retry:runs-with-all-transmissions-lost'] += 1
 
 
 def run(ctx):
@@ -911,8 +1086,9 @@ def run(ctx):
         return t_end - _real_time.time()
 
     scope = model_scope()
-    rep.notes.append('lock discipline read off the source: manager %r, client %r -> model scope %s' % (
-        gen_tables.lock_scope_info(), gen_tables.client_lock_info(), scope))
+    rep.notes.append('lock discipline read off the source: manager %r, client %r; locks during a back-off (observed): %r '
+                     '-> model scope %s' % (gen_tables.lock_scope_info(), gen_tables.client_lock_info(), backoff_seen(),
+                                            scope))
     batch = []
     total = [0]
 
@@ -965,7 +1141,20 @@ def run(ctx):
     if not ctx.quick:
         loss_plan = loss_plan * 3 + [((3, 3), True, 2), ((2, 2, 2), True, 2), ((3, 2, 1), False, 1),
                                      ((2, 2, 2, 1), True, 2), ((3, 3, 2), {'connected': True, 'fail': [1]}, 2)]
-    first = [((1, 1), {'connected': False, 'fail': [0]}, 1, 0), ((2, 1), {'connected': False, 'fail': [0, 1]}, 1, 0)]
+    # retrying clients (retry_on_empty, 1..2 retries, back-off): first transmissions lost, the other threads arriving
+    # before / during / after the back-off; small configurations, all schedules
+    R1, R2 = {'retries': 1}, {'retries': 2}
+    retry_plan = [((2, 1), {'connected': True, 'retry': R1}, 1), ((1, 1), {'connected': True, 'retry': R2}, 2),
+                  ((1, 1, 1), {'connected': True, 'retry': R1}, 1), ((2, 2), {'connected': False, 'retry': R1}, 2),
+                  ((2, 1), {'connected': True, 'fail': [0], 'retry': R1}, 1), ((2, 1, 1), {'connected': True, 'retry': R2}, 2),
+                  ((1, 2), {'connected': False, 'fail': [1], 'retry': R2}, 1)]
+    if not ctx.quick:
+        retry_plan = retry_plan * 3 + [((2, 2, 1), {'connected': True, 'retry': R2}, 2), ((3, 2), {'connected': True, 'retry': R1}, 2),
+                                       ((2, 2, 2), {'connected': False, 'retry': R1}, 2),
+                                       ((2, 2, 1, 1), {'connected': True, 'retry': R1}, 1),
+                                       ((3, 3), {'connected': True, 'fail': [1], 'retry': R2}, 3)]
+    first = [((1, 1), {'connected': False, 'fail': [0]}, 1, 0), ((1, 1), {'connected': True, 'retry': R1}, 1, 1),
+             ((2, 1), {'connected': False, 'fail': [0, 1]}, 1, 0)]
     # broadcasts (client with broadcast_enable, unit 0): threads mixing broadcasts and ordinary requests; `nlost` < 0
     # encodes "-n broadcasts" (and one lost reply besides when n >= 10)
     bc_plan = [((1, 1), True, -1), ((2, 1), True, -1), ((1, 2), False, -1), ((2, 2), True, -2), ((2, 2), False, -1),
@@ -974,8 +1163,8 @@ def run(ctx):
     if not ctx.quick:
         bc_plan = bc_plan * 3 + [((3, 3), True, -2), ((2, 2, 2), True, -3), ((2, 2, 2, 1), True, -2), ((3, 3, 2), False, -13)]
     mixed = []
-    for n_ in range(max(len(bc_plan), len(loss_plan))):
-        mixed += [x for x in (loss_plan[n_:n_ + 1] + bc_plan[n_:n_ + 1])]
+    for n_ in range(max(len(bc_plan), len(loss_plan), len(retry_plan))):
+        mixed += [x for x in (loss_plan[n_:n_ + 1] + retry_plan[n_:n_ + 1] + bc_plan[n_:n_ + 1])]
     plan = first + [(sh, w, 1, nl) for sh, w, nl in mixed] + [(sh, w, k, 0) for sh, w, k in plan]
     exhaustive = True
     for shape, conn, ncases, nlost in plan:
@@ -987,7 +1176,7 @@ def run(ctx):
                 break
             th = gen_threads(rng, shape, maxlat=1 if sum(shape) > 2 else 2)
             if nlost > 0:
-                th = with_losses(rng, th, nlost)
+                th = with_losses(rng, th, nlost, (world(conn).get('retry') or {}).get('retries'))
             elif nlost < 0:
                 if -nlost >= 10:
                     th = with_losses(rng, th, 1)
@@ -1021,6 +1210,12 @@ def run(ctx):
         conn = rng.random() < 0.6
         if not conn and rng.random() < 0.6:
             conn = {'connected': False, 'fail': rng.choice(scripts + [[rng.randrange(4)], [0, 1, 2]])}
+        if rng.random() < 0.3:        # a retrying client; the lost requests lose their first transmission(s)
+            conn = dict(world(conn), retry={'retries': rng.choice([1, 1, 2])})
+            th = [[dict(r, lost=rng.choice([1, 1, conn['retry']['retries'], conn['retry']['retries'] + 1]))
+                   if r.get('lost') else r for r in t] for t in th]
+            if rng.random() < 0.5:
+                th = with_losses(rng, th, 1, conn['retry']['retries'])
         add(th, conn, random_run(th, rng, conn), 'random')
     flush()
 
@@ -1037,6 +1232,9 @@ def run(ctx):
                     th = with_losses(rng, th, 1)
                 if rng.random() < 0.4:
                     th = with_broadcasts(rng, th, 1)
+                if rng.random() < 0.35:
+                    conn = dict(world(conn), retry={'retries': rng.choice([1, 2])})
+                    th = with_losses(rng, th, 1, conn['retry']['retries'])
                 budget = min(cap - total[0], 6000)
                 if budget <= 0 or left() < 15:
                     break
